@@ -256,7 +256,7 @@ theorem sortChildren_eval (hs : List FileRec) (fuel : Nat) (children : List Text
   rw [h4]
   simp [filesOf]
 
-theorem sortChildren_eval' (hs : List FileRec) (fuel : Nat) (children sorted : List Text) (out : List FileRec)
+theorem sortChildren_evalSorted (hs : List FileRec) (fuel : Nat) (children sorted : List Text) (out : List FileRec)
     (h1 : sortTexts children = sorted)
     (h4 : sortChildren.go hs fuel (dirsOf hs sorted) = some out) :
     sortChildren hs (fuel + 1) children = some (filesOf hs sorted ++ out) := by
